@@ -39,14 +39,6 @@ func gen(t *rapid.T) Case {
 	return c
 }
 
-// Two independent implementations of the same equations differ by accumulated round-off;
-// the direct-flow branch max(0, Q1+F) and the routing-store outflow R - R/(..)^(1/4) subtract
-// nearly equal numbers, so small flows carry an absolute error proportional to the magnitude
-// of the stores and rain, not to the flow itself: 1e-9 relative + 1e-10 * (1 + that magnitude).
-func close(a, b, scale float64) bool {
-	return a == b || math.Abs(a-b) <= 1e-9*math.Max(math.Abs(a), math.Abs(b))+1e-10*(1+scale)
-}
-
 func check(c Case) (r pbt.Result) {
 	ref := simref.NewGR4JRef(c.X1, c.X2, c.X3, c.X4)
 	for i := range c.WarmRain {
@@ -73,28 +65,38 @@ func check(c Case) (r pbt.Result) {
 	if c.WarmRain != nil {
 		r.Label("carried-initial-stores")
 	}
-	scale := math.Max(ref.S, ref.R)
+	// (A whole-run comparison of two independent implementations is not meaningful here: with a strongly
+	// negative exchange coefficient and a small routing store the map R -> R' is expanding, and round-off
+	// differences grow to 1e-4 relative within 100-200 steps. The equations are compared step by step.)
+	_ = out
+	_ = fin
+	// One-step comparison: from the code's own state after every step, one step of the reference must
+	// give the code's next output and next state. No round-off is carried from step to step (the routing
+	// store with a strongly negative exchange and a small capacity amplifies it), so this is tight.
+	stCode := append([]float64(nil), st...)
 	for i := range c.Rain {
-		scale = math.Max(scale, c.Rain[i])
-		q := ref.Step(c.Rain[i], c.PET[i])
-		if !close(out[0][i], q, scale) {
-			r.Failf("GR4J x=(%g,%g,%g,%g): runoff[%d] = %.17g, the published equations give %.17g (UH1 %v UH2 %v)", c.X1, c.X2, c.X3, c.X4, i, out[0][i], q, ref.UH1(), ref.UH2())
+		o1, next := simref.Run1("GR4J", cell, [][]float64{c.Rain[i : i+1], c.PET[i : i+1]}, append([]float64(nil), stCode...))
+		r1 := simref.NewGR4JRef(c.X1, c.X2, c.X3, c.X4)
+		r1.S, r1.R = stCode[0], stCode[1]
+		copy(r1.P1, stCode[4:4+n2])
+		copy(r1.P9, stCode[4+n2:4+n2+n1])
+		q := r1.Step(c.Rain[i], c.PET[i])
+		sc := math.Max(math.Max(stCode[0], stCode[1]), c.Rain[i])
+		tight := func(a, b float64) bool {
+			return a == b || math.Abs(a-b) <= 1e-11*math.Max(math.Abs(a), math.Abs(b))+1e-13*(1+sc)
+		}
+		if !tight(o1[0][0], q) {
+			r.Failf("GR4J x=(%g,%g,%g,%g) one step from state %v with rain %v pet %v: runoff %.17g, the published equations give %.17g", c.X1, c.X2, c.X3, c.X4, stCode, c.Rain[i], c.PET[i], o1[0][0], q)
 			return
 		}
-	}
-	want := []float64{ref.S, ref.R, float64(n1), float64(n2)}
-	want = append(want, ref.P1...)
-	want = append(want, ref.P9...)
-	names := []string{"S", "R", "n1", "n2"}
-	for j := range want {
-		if j >= len(fin) || !close(fin[j], want[j], scale) {
-			nm := "UH store"
-			if j < 4 {
-				nm = names[j]
+		w1 := append([]float64{r1.S, r1.R, float64(n1), float64(n2)}, append(append([]float64(nil), r1.P1...), r1.P9...)...)
+		for j := range w1 {
+			if !tight(next[j], w1[j]) {
+				r.Failf("GR4J x=(%g,%g,%g,%g) one step from state %v with rain %v pet %v: next state %v, the published equations give %v", c.X1, c.X2, c.X3, c.X4, stCode, c.Rain[i], c.PET[i], next, w1)
+				return
 			}
-			r.Failf("GR4J x=(%g,%g,%g,%g): final state %d (%s) = %v, the published equations give %v", c.X1, c.X2, c.X3, c.X4, j, nm, fin, want)
-			return
 		}
+		stCode = next
 	}
 	return
 }
